@@ -206,6 +206,19 @@ func vC14Name(n string, nl int) [][]byte {
 	for i := 0; i < nl; i++ {
 		ls = append(ls, []byte{vC14Letter(n + vItoa(i))})
 	}
+	// the leftmost label may be one that needs escaping in presentation form: ending in a backslash, containing a
+	// dot, or a backslash followed by a dot
+	// (quick tier: only the question name and the first pattern; C14.special=2: every name)
+	if nl > 0 && (vParam("C14.special", 1) == 2 || (vParam("C14.special", 1) == 1 && (n == "q" || n == "p0_"))) {
+		switch vChoice(n+"special", 4) {
+		case 1:
+			ls[0] = append(ls[0], '\\')
+		case 2:
+			ls[0] = append(ls[0], '.', 'a')
+		case 3:
+			ls[0] = append(ls[0], '\\', '.')
+		}
+	}
 	return ls
 }
 
@@ -239,13 +252,13 @@ func H_C14_routing() {
 	called := -1
 	for i, p := range pats {
 		i := i
-		text, _ := refEscapeName(p)
+		text := refPresentName(p)
 		if vChoice("nofq"+vItoa(i), 2) == 1 && len(p) > 0 {
 			text = text[:len(text)-1] // patterns may be given without the trailing dot
 		}
 		mux.HandleFunc(text, func(w ResponseWriter, r *Msg) { called = i })
 	}
-	qtext, _ := refEscapeName(q)
+	qtext := refPresentName(q)
 	// the question name itself registered and removed again (spelled in the other case, without the final dot):
 	// it must not match any more, and neither does an earlier registration of the same name
 	removed := vChoice("removed", 2) == 1
